@@ -54,6 +54,10 @@ def gen_expr(rng):
         text = f"trim({text})//{G.lit(rng)}"
     elif r < 0.3:
         text = f"[{G.lit(rng)}]"
+    elif 0.5 <= r < 0.58:            # relational operators spelled with "=" at the top level of the value
+        op = rng.choice(["<=", ">=", "==", "/=", " <= ", " == "])
+        a, b = rng.choice([("1", "2"), ("k", "n"), (G.lit(rng), G.lit(rng)), ("k+1", "2*n")])
+        text = f"{a}{op}{b}"
     elif r < 0.5:                    # short gaps between several literals
         k = rng.choice([2, 3, 4, 5])
         sep = rng.choice([", ", ",", "//"])
@@ -101,12 +105,18 @@ def unit_cases(chk, rng, n):
         sel = "+".join(f"{fn}({G.lit_selector(rng)})" for _ in range(k)) if fn == "len" else f"kind({G.lit_selector(rng)})"
         if not ok_text(sel):
             continue
-        where = rng.choice(["decl", "function", "function", "interface"])
+        where = rng.choice(["decl", "function", "function", "interface", "dim", "proto"])
         typ, key = ("integer", "kind") if fn == "kind" else ("character", "len")
-        sels.append((f"s{i}", where, f"{typ}({key}=", sel, key))
+        if where == "dim":
+            sels.append((f"s{i}", where, f"integer :: s{i}(", sel, "dim"))
+        elif where == "proto":
+            sels.append((f"s{i}", where, "type(seltype_t(", sel, "proto"))
+        else:
+            sels.append((f"s{i}", where, f"{typ}({key}=", sel, key))
     for chunk in [sels[i:i + 8] for i in range(0, len(sels), 8)]:
         for (name, where, pre, sel, key), out in zip(chunk, _parse_selectors(chunk)):
-            post = {"decl": f") :: {name}", "function": f") function {name}()", "interface": f") function {name}()"}[where]
+            post = {"decl": f") :: {name}", "function": f") function {name}()", "interface": f") function {name}()",
+                    "dim": ")", "proto": f")) :: {name}"}[where]
             out = None if out is None else tr(out)
             if out is not None and not core.is_ascii(out):
                 continue
@@ -115,7 +125,7 @@ def unit_cases(chk, rng, n):
     # --- PARAMETER statements
     pst = []
     for i in range(max(4, n // 6)):
-        e = gen_expr(rng) if rng.random() < 0.7 else rng.choice(["merge(1,2,k<n)", "2*k+1", "k"])
+        e = gen_expr(rng) if rng.random() < 0.7 else rng.choice(["merge(1,2,k<n)", "2*k+1", "k", "1 <= 2", "k==n", "3 >= 2"])
         if ok_text(e) and "[" not in e:
             pst.append((f"q{i}", e))
     lines = []
@@ -153,6 +163,10 @@ def _parse_selectors(chunk):
     """-> kind / strlen as stored by the real parser for each (name, where, pre, sel, key); None when the
     statement (or, with it, the whole file) could not be parsed"""
     decl = [f"{pre}{sel}) :: {name}" for (name, where, pre, sel, key) in chunk if where == "decl"]
+    decl += [f"{pre}{sel})" for (name, where, pre, sel, key) in chunk if where == "dim"]
+    if any(where == "proto" for (_n, where, _p, _s, _k) in chunk):
+        decl = ["type :: seltype_t", "integer :: z", "end type seltype_t"] + decl
+        decl += [f"{pre}{sel})) :: {name}" for (name, where, pre, sel, key) in chunk if where == "proto"]
     iface = []
     for (name, where, pre, sel, key) in chunk:
         if where == "interface":
@@ -180,7 +194,14 @@ def _parse_selectors(chunk):
     out = []
     for (name, where, pre, sel, key) in chunk:
         v = vals.get(name)
-        out.append(None if v is None or isinstance(v, str) else (v.kind if key == "kind" else v.strlen))
+        if v is None or isinstance(v, str):
+            out.append(None)
+        elif key == "dim":
+            out.append(v.dimension[1:-1] if v.dimension.startswith("(") and v.dimension.endswith(")") else v.dimension)
+        elif key == "proto":
+            out.append(v.proto[1] if v.proto else None)
+        else:
+            out.append(v.kind if key == "kind" else v.strlen)
     return out
 
 
@@ -224,6 +245,9 @@ WITNESS_SRC = """module m
   integer, dimension(merge(2,3,k<n)) :: arr2
   integer(kind=kind(k<n)) :: kk
   integer(kind=8/2) :: kslash
+  logical :: frel = 1 <= 2
+  logical, parameter :: feq = "a<b" == 'a<b'
+  integer :: dlit(len("a<b  c"))
   character(len=2*k) :: cstar
   character(len=len('<u>')) :: clen
   character(len=5) :: p3
@@ -316,6 +340,12 @@ def witness_facts():
         facts["probe:macros.html:var.attribs | join(\", \") | e#1"] = r is None or "k<n" not in r
         r = row("kk")
         facts["probe:macros.html:var.full_type | relurl(page_url)#1"] = r is None or "kind(k<n)" not in R.squash(r)
+        r = row("frel")
+        facts["fixed:initial-relational-truncated"] = r is None or "=1<=2" not in R.squash(r)
+        r = row("feq")
+        facts["fixed:initial-relational-truncated/literals"] = r is None or "=\"a<b\"=='a<b'" not in R.squash(r)
+        r = row("dlit")
+        facts["fixed:dimension-proto-literal-masked"] = r is None or 'dlit(len("a<b  c"))' not in R.squash(r)
         r = row("kslash")
         facts["fixed:relurl-plain-text"] = r is None or not R.squash(r).startswith("integer(kind=8/2)")
         r, r2 = row("cstar"), row("clen")
